@@ -607,7 +607,7 @@ fn odd_reference_and_failed_entry(ctx: &mut Ctx) {
     if !ok {
         ctx.rep.machinery("could not build the over-long path".into());
     } else {
-        for prim in ["-newer", "-anewer", "-cnewer", "-newermm", "-neweram", "-newercm", "-newerac", "-newercc"] {
+        for prim in ["-newer", "-anewer", "-cnewer", "-newermm", "-neweram", "-newercm", "-neweraa", "-newerca"] {
             let got = crate::findrun::run_find(&["top", "other", "-sorted", prim, "refs/stamp", "-type", "f", "-printf", "%f\n"]);
             ctx.rep.evaluations += 1;
             ctx.rep.nontrivial += 1;
@@ -624,6 +624,9 @@ fn odd_reference_and_failed_entry(ctx: &mut Ctx) {
         }
     }
     std::env::set_current_dir(&sbx).unwrap();
+    // (the over-long tree cannot be removed through absolute paths: std's remove_dir_all works with
+    // directory handles)
+    let _ = std::fs::remove_dir_all(base.join("top"));
     let _ = crate::sandbox::force_remove(&base);
 }
 
